@@ -133,6 +133,16 @@ func (l *Loader) LoadDir(dir, pkgPath, display string, only []string) (*Pkg, err
 				continue
 			}
 			p.Funcs[funcKey(fd)] = fd
+			// "<Func>$lit": the function literal returned by <Func> (option constructors), verifiable on its own
+			if fd.Body != nil && fd.Recv == nil {
+				for _, st := range fd.Body.List {
+					if r, ok := st.(*ast.ReturnStmt); ok && len(r.Results) == 1 {
+						if lit, ok := r.Results[0].(*ast.FuncLit); ok {
+							p.Funcs[funcKey(fd)+"$lit"] = &ast.FuncDecl{Name: ast.NewIdent(funcKey(fd) + "$lit"), Type: lit.Type, Body: lit.Body}
+						}
+					}
+				}
+			}
 		}
 	}
 	return p, nil
